@@ -80,8 +80,10 @@ FileNames == {"f1", "f2", "f3"} \cup { IncFiles[q].name : q \in DOMAIN IncFiles 
 RECURSIVE FlatFiles(_, _, _)
 FlatFiles(fs, q, st) ==
     IF q > Len(fs) THEN st
-    ELSE LET name == <<"f1", "f2", "f3">>[q]
-             sub  == Flat(fs[q], 1, [st EXCEPT !.inst = st.nextInst, !.nextInst = st.nextInst + 1, !.reg = 0,
+    ELSE LET linked == Len(fs[q]) = 1 /\ fs[q][1].k = "linkinc"       \* the command line names an includable file as a linked file
+             name == IF linked THEN IncFiles[fs[q][1].f].name ELSE <<"f1", "f2", "f3">>[q]
+             body == IF linked THEN IncFiles[fs[q][1].f].body ELSE fs[q]
+             sub  == Flat(body, 1, [st EXCEPT !.inst = st.nextInst, !.nextInst = st.nextInst + 1, !.reg = 0,
                                                !.fname = name, !.counts[name] = @ + 1,
                                                !.insts = Append(@, name)])
          IN FlatFiles(fs, q + 1, sub)
@@ -450,12 +452,19 @@ StructAlphabet ==      \* C16: .repeat bodies (own '.', impure operators, hoiste
     Rep(2, << I1("movi", Bin("/", Bin("-", Dot, A), Num(2))), I1("sob", A) >>), Rep(2, << Blkb(Bin("%", Dot, Num(4))) >>),
     Rep(2, << Lab("z") >>), Rep(2, << Const("z", Num(1)) >>),
     [k |-> "insert", len |-> 0], [k |-> "insert", len |-> 7], [k |-> "insert", len |-> 300],
+    \* added after the second seeding round: an inserted file named "d.bin" next to the main file (7 bytes) while the included file i3
+    \* lives in a sub-directory and inserts ITS "d.bin" (5 other bytes); an includable '.once' file that is also linked
+    [k |-> "insert", len |-> 7, nm |-> "d"], Inc(3), [k |-> "linkinc", f |-> 1], [k |-> "linkinc", f |-> 3],
     [k |-> "end"], Inc(1), Inc(2), Lab("a"), Lab("1"), Const("c", Num(3)), I0("nop"), W(<<A, Dot>>), By(<<Num(5)>>) }
+StructDirAlphabet ==   \* C16: the directory- and command-line-related part of StructAlphabet, small enough for all 2-file programs
+  { [k |-> "insert", len |-> 7, nm |-> "d"], [k |-> "insert", len |-> 7], Inc(1), Inc(3), [k |-> "linkinc", f |-> 1], [k |-> "linkinc", f |-> 3],
+    I0("nop"), By(<<Num(5)>>), Rep(2, << [k |-> "insert", len |-> 7, nm |-> "d"] >>), Rep(2, << Inc(3) >>) }
 StructBigAlphabet ==   \* C16: large repeat counts (the property's n <= 40), kept out of the exhaustive alphabet for size
   { Rep(40, << By(<< Bin("-", Dot, A) >>) >>), Rep(17, << W(<< Dot >>), I1("movr", A) >>), Rep(33, << Rep(2, << [k |-> "even"], By(<< Num(1) >>) >>) >>),
     Lab("a"), I0("nop"), By(<< Num(5) >>) }
 StructIncFiles == << [name |-> "i1", body |-> << [k |-> "once"], LabX("x"), W(<< Sym("x"), Dot >>) >>],
-                     [name |-> "i2", body |-> << W(<< Dot >>), [k |-> "end"], W(<< Sym("undefined") >>) >>] >>
+                     [name |-> "i2", body |-> << W(<< Dot >>), [k |-> "end"], W(<< Sym("undefined") >>) >>],
+                     [name |-> "i3", dir |-> "sub", body |-> << [k |-> "insert", len |-> 5, nm |-> "d"], By(<< Num(9) >>) >>] >>
 
 ListAlphabet ==        \* C19: ordinary symbols of any value (negative, > 16 bit, > 18 bit, equal values), dotted names, labels, exports, includes
   { Lab("a"), Lab("b"), LabX("c"), Lab("1"), Const("n", Num(-5)), Const("big", Num(70000)), Const("z", Num(0)), ConstX("m", Bin("-", B, A)),
@@ -485,6 +494,8 @@ Guard(fs, s) ==
     /\ s.k = "link" => Count(fs, LAMBDA t : t.k \in {"link"}) < 2
     /\ s.k = "externall" => ~\E r \in DOMAIN Last(fs) : Last(fs)[r].k = "externall"
     /\ s.k = "end" => ~\E r \in DOMAIN Last(fs) : Last(fs)[r].k = "end"
+    /\ s.k = "linkinc" => (Len(fs) >= 2 /\ Last(fs) = <<>>)          \* a linked includable file is a whole file of its own, not the first
+    /\ (Last(fs) # <<>> /\ Last(fs)[1].k = "linkinc") => FALSE
 
 ASSUME PrintT(ToJson([incfiles |-> IncFiles]))      \* the harness needs the include-file pool to render programs
 
@@ -561,7 +572,7 @@ MoveInvariant(r) ==
 TopNames(f)  == { f[q].n : q \in { x \in DOMAIN f : f[x].k \in {"label", "const"} } }
 UsesLocals(f) == \E q \in DOMAIN f : (f[q].k = "label" /\ IsLocalName(f[q].n)) \/ (f[q].k = "repeat")
 CatOK(fs) == /\ Len(fs) >= 2
-             /\ \A q \in DOMAIN fs : ~UsesLocals(fs[q]) /\ ~\E x \in DOMAIN fs[q] : fs[q][x].k \in {"end", "once", "include", "extern", "externall"}
+             /\ \A q \in DOMAIN fs : ~UsesLocals(fs[q]) /\ ~\E x \in DOMAIN fs[q] : fs[q][x].k \in {"end", "once", "include", "extern", "externall", "linkinc"}
              /\ \A q1, q2 \in DOMAIN fs : q1 # q2 => TopNames(fs[q1]) \cap TopNames(fs[q2]) = {}
 LinkIsConcatenation(r) ==
     ("concat" \in Extra /\ r.ok /\ CatOK(files)) => SameMeaning(r, Eval(<< Concat(files) >>))
